@@ -6,6 +6,7 @@ path. Oracle: per real trace event, the multiset of tracepoint ids that acted eq
 computed from the independent event recording.
 """
 import itertools
+import sys
 import threading
 
 from .. import rig, progs
@@ -69,6 +70,8 @@ def cases(tier, seed):
             for how in ('forwarded', 'installed'):
                 for who in ('self', 'other'):      # installed by the program's own thread / by another thread (as the poll's worker does)
                     out.append({'k': 'late', 'when': when, 'where': where, 'how': how, 'who': who})
+            if when >= 0:
+                out.append({'k': 'late', 'when': when, 'where': where, 'how': 'started', 'who': 'new-agent'})
     for name in names:
         cand = candidates(name)
         for i, c in enumerate(cand):
@@ -216,7 +219,20 @@ def late_config(ctx, desc):
     line = at_loop if where == 'loop' else at_inner
     trig = build_trigger('t', 'c03late.py', line, {'fire_count': '-1', 'fire_period': '0', 'frame_type': 'no_frame'}, [], [])
 
+    first = agent
+    if desc.get('who') == 'new-agent':
+        # the first agent has a tracepoint of its own in the file (on the other line), so it follows the calls in progress
+        first.install([build_trigger('t0', 'c03late.py', at_inner if where == 'loop' else at_loop, {'fire_count': '-1', 'fire_period': '0', 'frame_type': 'no_frame'}, [], [])])
+
     def hook(i):
+        nonlocal agent
+        if i == when and desc.get('who') == 'new-agent':
+            # the agent is replaced while the program runs: the old one is shut down, a new one started and configured
+            old, agent = agent, rig.Agent()
+            old.handler.shutdown()
+            agent.handler.start()
+            agent.install([trig])
+            return
         if i == when:
             if desc.get('who') == 'other':
                 t = threading.Thread(target=agent.install, args=([trig],), name='config-worker')
@@ -225,7 +241,20 @@ def late_config(ctx, desc):
             else:
                 agent.install([trig])
     with rig.VirtualClock():
-        if how == 'installed':
+        if desc.get('who') == 'new-agent':
+            from ..drive import Run
+            run = Run()
+            saved = (sys.gettrace(), threading.gettrace())
+            first.handler.start()
+            try:
+                run.result = ns['main'](hook)
+            except BaseException as e:
+                run.exc = e
+            finally:
+                agent.handler.shutdown()
+                sys.settrace(saved[0])
+                threading.settrace(saved[1])
+        elif how == 'installed':
             from ..drive import run_installed
             run = run_installed(agent.handler, ns['main'], hook)
         else:
